@@ -68,6 +68,16 @@ CLAIMED = {
             "predict_sorted row is an event validated by BootstrapTrace.",
             "alpha dyadic; rounding is the code's int(n*alpha+0.5); thread schedules (n_jobs>1) are observed as they "
             "happen, fits are matched to draws by content."),
+    "C13": ("DESIGN 4/C13",
+            "TLA+ spec TargetInv (name table with inverses; bijections label set -> 0..m-1; equivariant inner learner): "
+            "TLC model checking incl. two negative runs + trace validation on the permutation the code really drew",
+            "TLC checks RoundTrip, PredictsOriginalLabels, ProbaAgreesWithPlain and ColumnsMatchClasses for every "
+            "bijection of several label sets; the observed name table (callables classified on dyadic points), the "
+            "permutation transformer (random_state swept until every permutation was drawn, sigma read back), "
+            "TransformedTargetClassifier2 around a recording equivariant classifier and TransformedTargetRegressor2 per "
+            "name are validated as traces; real scikit-learn learners cover the agreement clause.",
+            "closest=True excluded (NumPy-2 drift); numeric round trips within 1e-9; LogisticRegression agreement within "
+            "solver tolerance."),
 }
 
 PENDING_REASON = "check not built yet in this round (planned: see DESIGN.md section 4); not claimed until it runs"
